@@ -73,10 +73,11 @@ OPS_MUT = ["new", "from_cs", "from_gs", "from_cgs", "copy_from", "conv_topo", "r
            "unconstrain", "unconstrain_set", "map_dims"]
 
 
-def run_pool(run, prop, plans, keep_prefixes, label="poly"):
+def run_pool(run, prop, plans, keep_prefixes, label="poly", exe=None, trace_mod="PolyTrace"):
     """plans: list of dict(maxlen, maxdim, ill, coef, opset, num).  keep_prefixes: verdict prefixes this property owns."""
-    lib = core.build_lib()
-    exe = core.build_harness("poly", ["poly.cc"], lib)
+    if exe is None:
+        lib = core.build_lib()
+        exe = core.build_harness("poly", ["poly.cc"], lib)
     tot_ev = tot_und = 0
     opc = {}
     for pl in plans:
@@ -88,7 +89,7 @@ def run_pool(run, prop, plans, keep_prefixes, label="poly"):
         t1 = time.time()
         executed = tracelib.execute(run, exe, progs, flat, args=["20"])
         t2 = time.time()
-        rej, und, nev, failed = tracelib.validate(run, SPEC, "PolyTrace", os.path.join(SPEC, "PolyTrace.cfg"), executed)
+        rej, und, nev, failed = tracelib.validate(run, SPEC, trace_mod, os.path.join(SPEC, trace_mod + ".cfg"), executed)
         t3 = time.time()
         tot_ev += nev
         tot_und += und
@@ -118,7 +119,7 @@ def run_pool(run, prop, plans, keep_prefixes, label="poly"):
                 # the call that died is the one after the last logged event of that history
                 nops = sum(1 for l in r["events"][:r["index"]] if l.startswith('{"e":"Op"'))
                 op = r["prog"][nops]["op"] if nops < len(r["prog"]) else "?"
-                why = "%s:%s" % (crash_class(op), r["op"].lower())
+                why = "%s:%s" % ("C20" if prop == "C20" else crash_class(op), r["op"].lower())
             if not any(why.startswith(p) for p in keep_prefixes) and not os.environ.get("VERIF_ALL"):
                 continue
             ev = None
